@@ -30,11 +30,13 @@ pub struct StrSplitCase {
     pub extra: usize,
     pub s: usize,
     pub e: usize,
+    /// how the range is written (elem::bounds)
+    pub form: usize,
 }
 
 impl StrSplitCase {
     pub fn text(&self) -> String {
-        format!("strsplit:cfg={};cont={:?};text={};extra={};s={};e={}", self.ci, self.cont, self.text, self.extra, self.s, self.e)
+        format!("strsplit:cfg={};cont={:?};text={};extra={};s={};e={};form={}", self.ci, self.cont, self.text, self.extra, self.s, self.e, self.form)
     }
 }
 
@@ -90,7 +92,7 @@ where
     match c.cont {
         SCont::Boxed => {
             let mut orig: BumpBox<str> = bump.alloc_str(text);
-            let r = catch_unwind(AssertUnwindSafe(|| orig.split_off(c.s..c.e)));
+            let r = catch_unwind(AssertUnwindSafe(|| orig.split_off(crate::elem::bounds(c.form, c.s, c.e, text.len()))));
             let part = judge!(r, orig, |x: &BumpBox<str>| x.len(), text.len());
             drop(part);
         }
@@ -98,7 +100,7 @@ where
             let mut orig: FixedBumpString = FixedBumpString::with_capacity_in(text.len() + c.extra, &bump);
             orig.push_str(text);
             let cap0 = orig.capacity();
-            let r = catch_unwind(AssertUnwindSafe(|| orig.split_off(c.s..c.e)));
+            let r = catch_unwind(AssertUnwindSafe(|| orig.split_off(crate::elem::bounds(c.form, c.s, c.e, text.len()))));
             let mut part = judge!(r, orig, |x: &FixedBumpString| x.capacity(), cap0);
             // fill both parts to the brim: neither may disturb the other
             let mut want_p = want_part.clone();
@@ -125,7 +127,7 @@ where
             let mut orig: BumpString<&B<S>> = BumpString::with_capacity_in(text.len() + c.extra, &bump);
             orig.push_str(text);
             let cap0 = orig.capacity();
-            let r = catch_unwind(AssertUnwindSafe(|| orig.split_off(c.s..c.e)));
+            let r = catch_unwind(AssertUnwindSafe(|| orig.split_off(crate::elem::bounds(c.form, c.s, c.e, text.len()))));
             let mut part = judge!(r, orig, |x: &BumpString<&B<S>>| x.capacity(), cap0);
             let mut want_p = want_part.clone();
             let mut want_o = want_rest.clone();
@@ -193,7 +195,11 @@ pub fn explore(thorough: bool) -> (J, Vec<J>) {
                     let len = TEXTS[text].len();
                     for s in 0..=len + 1 {
                         for e in 0..=len + 1 {
-                            let c = StrSplitCase { ci, cont, text, extra, s, e };
+                          for form in 0..=4usize {
+                            if !crate::elem::bounds_form_applies(form, s, e, len) {
+                                continue;
+                            }
+                            let c = StrSplitCase { ci, cont, text, extra, s, e, form };
                             n += 1;
                             match case(&c) {
                                 Ok(true) => {
@@ -204,12 +210,13 @@ pub fn explore(thorough: bool) -> (J, Vec<J>) {
                                 }
                                 Ok(false) => {}
                                 Err(m) => {
-                                    viols.push(J::obj().set("prop", "C16").set("cfg", CFGS[ci].0).set("params", format!("{cont:?} text={:?} extra_cap={extra}", TEXTS[text])).set("history", format!("split_off({s}..{e})")).set("msg", m).set("replay_args", vec!["--case".to_string(), c.text()]));
+                                    viols.push(J::obj().set("prop", "C16").set("cfg", CFGS[ci].0).set("params", format!("{cont:?} text={:?} extra_cap={extra}", TEXTS[text])).set("history", format!("split_off({:?})", crate::elem::bounds(form, s, e, len))).set("msg", m).set("replay_args", vec!["--case".to_string(), c.text()]));
                                     if viols.len() >= 8 {
                                         break 'outer;
                                     }
                                 }
                             }
+                          }
                         }
                     }
                 }
@@ -222,7 +229,7 @@ pub fn explore(thorough: bool) -> (J, Vec<J>) {
         .set("traces_validated_against_impl", n)
         .set("evaluations", n)
         .set("distinct_nontrivial", nt)
-        .set("rule", "string split_off: {BumpBox<str>, FixedBumpString, BumpString} x 7 texts mixing 1-4 byte characters x spare capacity 0..N x every pair of byte indices 0..=len+1 (inverted, out-of-range and non-boundary ranges must panic and leave the string alone) x 4 arena configurations; a valid split returns exactly text[range] and leaves the rest, the capacities add up to the original capacity, the buffers (start .. start + capacity) do not overlap, and filling each part up to (fixed) / beyond (growable) its capacity never changes the other part; non-trivial = valid ranges")
+        .set("rule", "string split_off: {BumpBox<str>, FixedBumpString, BumpString} x 7 texts mixing 1-4 byte characters x spare capacity 0..N x every pair of byte indices 0..=len+1, each written with every applicable bound form (s..e, excluded start, included end, both, unbounded) (inverted, out-of-range and non-boundary ranges must panic and leave the string alone) x 4 arena configurations; a valid split returns exactly text[range] and leaves the rest, the capacities add up to the original capacity, the buffers (start .. start + capacity) do not overlap, and filling each part up to (fixed) / beyond (growable) its capacity never changes the other part; non-trivial = valid ranges")
         .set("samples", samples)
         .set("exhaustive", true);
     let space = J::obj()
@@ -258,6 +265,7 @@ pub fn replay(case_text: &str) -> Option<String> {
         extra: m["extra"].parse().ok()?,
         s: m["s"].parse().ok()?,
         e: m["e"].parse().ok()?,
+        form: m.get("form").and_then(|f| f.parse().ok()).unwrap_or(0),
     };
     case(&c).err()
 }
